@@ -3,6 +3,7 @@ package main
 import (
 	"fmt"
 	"reflect"
+	"strings"
 )
 
 // The direct oracle: property C11 stated on the implementation's observations only (no model).
@@ -81,6 +82,8 @@ type oClient struct {
 	taint      string
 	view       []KV
 	subStep    int
+	exp        []KV // the delivered events applied by the oracle itself (what a correct view holds)
+	pend       []Ev // snapshot events delivered so far
 	eosHere    bool // this subscription delivered its own snapshot
 	dupSeen    bool // the batch at the snapshot's own index has been delivered once more
 }
@@ -147,6 +150,35 @@ func diffRows(t int, a, b []KV) []Ev {
 
 type evKey struct{ T, S, I int }
 
+func scopeOf(ts *TS, c *oClient) string {
+	t := -1
+	if ts != nil {
+		t = ts.T
+	} else if c != nil {
+		t = c.ts.T
+	}
+	switch t {
+	case THealth, TConnect:
+		return "service-health"
+	case TConfig:
+		return "config-entry"
+	}
+	return ""
+}
+
+// dupKeys: the view holds two rows for one instance (the materialized view keyed them by differently
+// spelled node names)
+func dupKeys(rows []KV) bool {
+	for i := range rows {
+		for j := i + 1; j < len(rows); j++ {
+			if rows[i].S == rows[j].S && rows[i].I == rows[j].I {
+				return true
+			}
+		}
+	}
+	return false
+}
+
 func oracle(steps []Step, drained bool) []Failure {
 	var fails []Failure
 	seen := map[string]bool{}
@@ -157,7 +189,42 @@ func oracle(steps []Step, drained bool) []Failure {
 	cur := map[TS][]KV{}
 	committed := []*oBatch{}
 	clients := map[int]*oClient{}
-	silentKeys := map[evKey]string{} // rows changed without an event (cause), until an event names them again
+	// rows changed without an event (cause), from the commit that did it until a commit whose events name them again
+	type silentSpan struct {
+		from, to uint64 // to == 0: still open
+		cause    string
+	}
+	silentKeys := map[evKey][]silentSpan{}
+	silentAt := func(k evKey, idx uint64) (string, bool) {
+		for _, sp := range silentKeys[k] {
+			if sp.from <= idx && (sp.to == 0 || idx < sp.to) {
+				return sp.cause, true
+			}
+		}
+		return "", false
+	}
+	behind := map[TS]bool{}         // subjects whose direct query was seen reporting an index behind its content
+	spelling := map[string]string{} // node (lower case) -> spelling used by the writes so far
+	respelt := map[string]bool{}    // nodes that the writes spelled in two ways
+	noteSpelling := func(w *Write) {
+		var note func(x *Write)
+		note = func(x *Write) {
+			if x.Node != "" {
+				l := strings.ToLower(x.Node)
+				if sp, ok := spelling[l]; ok && sp != x.Node {
+					respelt[l] = true
+				}
+				spelling[l] = x.Node
+			}
+			for k := range x.Ops {
+				note(&x.Ops[k])
+			}
+		}
+		if w != nil {
+			note(w)
+		}
+	}
+	acls := newACLState()
 	for _, ts := range allTS {
 		base[ts] = []KV{}
 		cur[ts] = []KV{}
@@ -193,14 +260,30 @@ func oracle(steps []Step, drained bool) []Failure {
 		return "unknown"
 	}
 	// cause of a wrong view: every differing row is one that changed without an event
-	viewCause := func(c *oClient, view, want []KV) string {
+	viewCause := func(c *oClient, view, want []KV, at uint64) string {
 		d := diffRows(c.ts.T, want, view)
 		if len(d) == 0 {
 			return "unknown"
 		}
+		if dupKeys(view) && !dupKeys(want) {
+			return "node-name-respelled"
+		}
+		// the delivered events, applied by the oracle, give the right rows: the view mis-applied them; and
+		// every row it got wrong is on a node that the writes spelled in two ways
+		if sameRows(c.exp, want) && c.ts.T != TConfig {
+			all := true
+			for _, e := range d {
+				if e.I >= len(instIDs) || !respelt[strings.SplitN(instIDs[e.I], "/", 2)[0]] {
+					all = false
+				}
+			}
+			if all {
+				return "node-name-respelled"
+			}
+		}
 		cause := ""
 		for _, e := range d {
-			x, ok := silentKeys[evKey{e.T, e.S, e.I}]
+			x, ok := silentAt(evKey{e.T, e.S, e.I}, at)
 			if !ok || (cause != "" && cause != x) {
 				return "unknown"
 			}
@@ -208,8 +291,10 @@ func oracle(steps []Step, drained bool) []Failure {
 		}
 		return cause
 	}
+	var failTS *TS // subject of a failure that is not about a client
 	for i := range steps {
 		st := &steps[i]
+		failTS = nil
 		fail := func(c int, kind, cause, msg string) {
 			if cl := clients[c]; cl != nil {
 				// the gap defect is transient (attributed delivery by delivery); the others leave the view wrong
@@ -221,7 +306,7 @@ func oracle(steps []Step, drained bool) []Failure {
 			}
 			if !seen[kind+":"+cause] {
 				seen[kind+":"+cause] = true
-				fails = append(fails, Failure{Kind: kind, Cause: cause, Step: i, C: c, Msg: msg})
+				fails = append(fails, Failure{Kind: kind, Cause: cause, Scope: scopeOf(failTS, clients[c]), Step: i, C: c, Msg: msg})
 			}
 		}
 		switch st.Op {
@@ -229,6 +314,7 @@ func oracle(steps []Step, drained bool) []Failure {
 			if st.Err != "" && st.Queued {
 				fail(-1, "commit-error-but-published", "unknown", st.Err)
 			}
+			noteSpelling(st.W)
 			var evs []Ev
 			if st.Queued {
 				b := &oBatch{idx: st.Idx, evs: st.Evs, close: st.Close, epoch: epoch}
@@ -236,21 +322,54 @@ func oracle(steps []Step, drained bool) []Failure {
 				committed = append(committed, b)
 				evs = st.Evs
 				for _, e := range evs {
-					delete(silentKeys, evKey{e.T, e.S, e.I})
+					k := evKey{e.T, e.S, e.I}
+					for n := range silentKeys[k] {
+						if silentKeys[k][n].to == 0 {
+							silentKeys[k][n].to = st.Idx
+						}
+					}
 				}
 			}
-			for _, q := range st.Q {
+			// the tokens whose subscriptions this write must close, from the generated ACL writes only
+			if st.Queued && st.Err == "" {
+				if wantClose, ok := aclExpected(acls, st.W); ok {
+					got := map[int]bool{}
+					for _, t := range st.Close {
+						got[t] = true
+					}
+					if !reflect.DeepEqual(got, wantClose) {
+						fail(-1, "acl-close-set-mismatch", "unknown",
+							fmt.Sprintf("write %+v must close the subscriptions of tokens %v, the closeSubscription event names %v", *st.W, wantClose, st.Close))
+					}
+				}
+			}
+			for qi := range st.Q {
+				q := st.Q[qi]
+				failTS = &st.Q[qi].TS
+				// the direct query's own index must cover a commit that changed its result
+				if st.Queued && !sameRows(cur[q.TS], q.Rows) && q.Idx < st.Idx {
+					cause := "unknown"
+					if w := st.W; (q.TS.T == THealth || q.TS.T == TConnect) && w != nil &&
+						(w.K == "svc" || w.K == "reg" || w.K == "txn" || w.K == "dsvc" || w.K == "dnode" || w.K == "dchk") {
+						cause = "query-index-behind-content"
+						behind[q.TS] = true
+					}
+					fail(-1, "query-index-not-advanced", cause,
+						fmt.Sprintf("ts %v: result changed by the commit at %d, the query reports index %d", q.TS, st.Idx, q.Idx))
+				}
 				want := applyEvs(q.TS, cur[q.TS], evs)
 				if !sameRows(want, q.Rows) {
 					cause := "unknown"
 					d := diffRows(q.TS.T, want, q.Rows)
+
 					// the instance written by this commit was connect-native and no longer is
 					if w := st.W; w != nil && w.K == "svc" && w.Kind == "" && q.TS.T == TConnect && len(d) == 1 &&
 						d[0].V == 0 && d[0].I == instID(w.Node, w.SID) {
 						cause = "connect-native-flag-removed"
 					}
 					for _, e := range d {
-						silentKeys[evKey{e.T, e.S, e.I}] = cause
+						k := evKey{e.T, e.S, e.I}
+						silentKeys[k] = append(silentKeys[k], silentSpan{from: st.Idx, cause: cause})
 					}
 					fail(-1, "events-do-not-match-state-change", cause,
 						fmt.Sprintf("ts %v: previous rows %v + events %v != query %v", q.TS, cur[q.TS], evs, q.Rows))
@@ -258,9 +377,20 @@ func oracle(steps []Step, drained bool) []Failure {
 				cur[q.TS] = q.Rows
 				hist[q.TS] = append(hist[q.TS], oHist{st.Idx, q.Rows})
 			}
+			failTS = nil
 		case "restore":
 			epoch++
-			silentKeys = map[evKey]string{}
+			silentKeys = map[evKey][]silentSpan{}
+			behind = map[TS]bool{}
+			for k := range st.R {
+				noteSpelling(&st.R[k])
+			}
+			acls = newACLState() // only the ACL rows of the restored content exist now
+			for k := range st.R {
+				if x := &st.R[k]; x.K == "pol" || x.K == "tok" || x.K == "role" {
+					aclExpected(acls, x)
+				}
+			}
 			for _, q := range st.Q {
 				base[q.TS] = q.Rows
 				cur[q.TS] = q.Rows
@@ -337,6 +467,7 @@ func oracle(steps []Step, drained bool) []Failure {
 				if c.kind == 0 {
 					c.lastIdx = 0
 					c.taint = ""
+					c.exp, c.pend = nil, nil
 				}
 				if st.CIdx != c.lastIdx {
 					fail(st.C, "index-after-close", "unknown", fmt.Sprintf("materializer index %d, expected %d", st.CIdx, c.lastIdx))
@@ -371,6 +502,7 @@ func oracle(steps []Step, drained bool) []Failure {
 				c.snapPhase = true
 				c.lastIdx = 0
 				c.taint = ""
+				c.exp, c.pend = nil, nil
 				if st.CIdx != 0 || len(st.View) != 0 {
 					fail(st.C, "reset-incomplete", "unknown", "view not reset by NewSnapshotToFollow")
 				}
@@ -379,6 +511,7 @@ func oracle(steps []Step, drained bool) []Failure {
 					fail(st.C, "unexpected-framing", "unknown", "EndOfSnapshot outside a snapshot")
 				}
 				c.snapPhase = false
+				c.exp, c.pend = applyEvs(c.ts, c.exp, c.pend), nil
 				c.snapIdx, c.start, c.haveStart, c.epoch = st.OIdx, st.OIdx, true, epoch
 				c.eosHere = true
 				c.taint = ""
@@ -390,9 +523,9 @@ func oracle(steps []Step, drained bool) []Failure {
 				}
 				c.lastIdx = st.CIdx
 				if want := contentAt(c.ts, st.CIdx); !sameRows(want, st.View) {
-					cause := viewCause(c, st.View, want)
+					cause := viewCause(c, st.View, want, st.CIdx)
 					for _, h := range hist[c.ts] {
-						if cause == "unknown" && h.idx > st.CIdx && sameRows(h.rows, st.View) {
+						if cause == "unknown" && behind[c.ts] && h.idx > st.CIdx && sameRows(h.rows, st.View) {
 							cause = "query-index-behind-content"
 						}
 					}
@@ -405,11 +538,13 @@ func oracle(steps []Step, drained bool) []Failure {
 					}
 				}
 				if c.snapPhase {
+					c.pend = append(c.pend, st.OEvs...)
 					if st.CIdx != c.lastIdx {
 						fail(st.C, "index-moved-in-snapshot", "unknown", "")
 					}
 					continue
 				}
+				c.exp = applyEvs(c.ts, c.exp, st.OEvs)
 				if !c.haveStart { // resumed subscription
 					c.start, c.haveStart = c.reqIdx, true
 					if c.epoch != epoch && c.taint == "" {
@@ -447,7 +582,7 @@ func oracle(steps []Step, drained bool) []Failure {
 				c.lastIdx = st.CIdx
 				if want := contentAt(c.ts, st.CIdx); !sameRows(want, st.View) {
 					if cause == "unknown" {
-						cause = viewCause(c, st.View, want)
+						cause = viewCause(c, st.View, want, st.CIdx)
 					}
 					fail(st.C, "view-mismatch", cause,
 						fmt.Sprintf("after event@%d (snapshot@%d) view %v, query at that index %v", st.CIdx, c.snapIdx, st.View, want))
@@ -469,7 +604,7 @@ func oracle(steps []Step, drained bool) []Failure {
 				}
 				if !seen[kind+":"+cause] {
 					seen[kind+":"+cause] = true
-					fails = append(fails, Failure{Kind: kind, Cause: cause, Step: last, C: id, Msg: msg})
+					fails = append(fails, Failure{Kind: kind, Cause: cause, Scope: scopeOf(nil, c), Step: last, C: id, Msg: msg})
 				}
 			}
 			if !c.haveStart {
@@ -513,17 +648,77 @@ func oracle(steps []Step, drained bool) []Failure {
 							allEarly = false
 						}
 					}
-					if allEarly && gi == len(got) && cause == "unknown" {
+					if allEarly && gi == len(got) && cause == "unknown" && behind[c.ts] {
 						cause = "query-index-behind-content"
 					}
 				}
 				fail(kind, cause, fmt.Sprintf("subject %v: commits after index %d: %v, delivered: %v", c.ts, c.start, want, got))
 			}
 			if !sameRows(c.view, cur[c.ts]) {
-				fail("final-view-mismatch", viewCause(c, c.view, cur[c.ts]),
+				fail("final-view-mismatch", viewCause(c, c.view, cur[c.ts], ^uint64(0)>>1),
 					fmt.Sprintf("subject %v: view %v, current query %v", c.ts, c.view, cur[c.ts]))
 			}
 		}
 	}
 	return fails
+}
+
+// ---- which tokens a generated ACL write affects (independent of acl_events.go)
+
+type aclState struct {
+	tokPols  map[int][]int
+	tokRole  map[int]bool
+	rolePols []int
+	role     bool
+}
+
+func newACLState() *aclState {
+	return &aclState{tokPols: map[int][]int{}, tokRole: map[int]bool{}}
+}
+
+// aclExpected: the set of tokens whose subscriptions the (successful) write w must close; it also
+// applies w to the bookkeeping. ok is false for writes that are no ACL writes (they must close nothing).
+func aclExpected(a *aclState, w *Write) (map[int]bool, bool) {
+	out := map[int]bool{}
+	if w == nil {
+		return out, true
+	}
+	switch w.K {
+	case "tok":
+		out[w.Tok] = true
+		a.tokPols[w.Tok] = append([]int{}, w.Links...)
+		a.tokRole[w.Tok] = w.Role
+	case "dtok":
+		if _, ok := a.tokPols[w.Tok]; ok {
+			out[w.Tok] = true
+		}
+		delete(a.tokPols, w.Tok)
+		delete(a.tokRole, w.Tok)
+	case "pol":
+		viaRole := false
+		for _, p := range a.rolePols {
+			if p == w.Pol {
+				viaRole = true
+			}
+		}
+		for t, ps := range a.tokPols {
+			for _, p := range ps {
+				if p == w.Pol {
+					out[t] = true
+				}
+			}
+			if viaRole && a.role && a.tokRole[t] {
+				out[t] = true
+			}
+		}
+	case "role":
+		for t := range a.tokPols {
+			if a.tokRole[t] {
+				out[t] = true
+			}
+		}
+		a.role = true
+		a.rolePols = append([]int{}, w.Links...)
+	}
+	return out, true
 }
